@@ -31,6 +31,7 @@ type Result struct {
 	States     []uint64
 	MaxRound   specqbft.Round
 	Nontrivial bool
+	Directed   string // directed strategy played first ("" = none)
 }
 
 // GenConfig draws an execution configuration.
@@ -79,14 +80,18 @@ func isDecidedShape(n int, m *specqbft.SignedMessage) bool {
 	return m.Message.MsgType == specqbft.CommitMsgType && len(m.Signers) >= 2*f+1
 }
 
-// Run executes one adversarial execution and returns what the monitors observed.
-func Run(c *evid.Case, env *qsim.Env, cfg qsim.Config, after func(cl *qsim.Cluster)) *Result {
-	cl := qsim.NewCluster(env, c.Rng, cfg)
+// Mon is the set of consensus monitors attached to one cluster.
+type Mon struct {
+	Res   *Result
+	Check func()
+}
+
+// Attach wires the certificate monitors into the cluster's hooks and returns the per-step agreement/decision check.
+func Attach(cl *qsim.Cluster) *Mon {
+	cfg := cl.Cfg
 	res := &Result{Cl: cl}
 	n := cfg.N
 	first := map[spectypes.OperatorID][]byte{} // first decided value reported per honest node
-	var current *specqbft.SignedMessage       // message being delivered (for OnReturned context)
-	_ = current
 
 	cl.OnReturned = func(nd *qsim.Node, dec *specqbft.SignedMessage, via *specqbft.SignedMessage) {
 		// C02: every decided message returned by Controller.ProcessMsg must be a verifiable certificate
@@ -115,6 +120,9 @@ func Run(c *evid.Case, env *qsim.Env, cfg qsim.Config, after func(cl *qsim.Clust
 
 	prevDecided := map[spectypes.OperatorID]bool{}
 	check := func() {
+		if len(res.Agreement) > 0 || len(res.Certs) > 3 {
+			return // one witness per execution is enough
+		}
 		var ref []byte
 		var refNode spectypes.OperatorID
 		for _, nd := range cl.Honest() {
@@ -193,22 +201,39 @@ func Run(c *evid.Case, env *qsim.Env, cfg qsim.Config, after func(cl *qsim.Clust
 			}
 		}
 	}
+	return &Mon{Res: res, Check: check}
+}
 
-	cl.StartAll()
-	check()
+// Run executes one adversarial execution and returns what the monitors observed. One execution in three opens with a
+// directed strategy (lock-then-break) before the seed-driven scheduler takes over.
+func Run(c *evid.Case, env *qsim.Env, cfg qsim.Config, after func(cl *qsim.Cluster)) *Result {
+	directed := cfg.NumByz > 0 && !cfg.SilentByz && c.Rng.Intn(3) == 0
+	if directed {
+		cfg = directedConfig(c.Rng, cfg)
+	}
+	cl := qsim.NewCluster(env, c.Rng, cfg)
+	mon := Attach(cl)
+	res := mon.Res
 	traj := []any{cfg.N, cfg.NumByz}
 	lastState := ""
-	for cl.Step() {
-		check()
-		if after != nil {
-			after(cl)
-		}
+	track := func() {
+		mon.Check()
 		s := cl.AbstractState()
 		if s != lastState {
 			lastState = s
-			h := evid.Hash(cfg.N, s)
-			res.States = append(res.States, h)
+			res.States = append(res.States, evid.Hash(cfg.N, s))
 			traj = append(traj, s)
+		}
+	}
+	cl.StartAll()
+	track()
+	if directed {
+		res.Directed = LockThenBreak(cl, track)
+	}
+	for len(res.Agreement) == 0 && cl.Step() {
+		track()
+		if after != nil {
+			after(cl)
 		}
 		if len(res.Agreement) > 0 || len(res.Certs) > 3 {
 			break
